@@ -24,7 +24,8 @@ def make_files(d, rng):
         for ch in ("HHN", "HHE", "HHZ"):
             x = rng.normal(0, 1, n) + 2 * np.sin(2 * np.pi * rng.uniform(1, 8) * t)
             traces.append(obspy.Trace(data=x.astype(np.float64), header=dict(channel=ch, station="S" + name[:3].upper(), network="XX", sampling_rate=fs)))
-        fn = f"{name}.mseed"
+        # SEED-style names: several dots, a common first token - the output is named after everything before the last suffix
+        fn = {"fast_long": "XX.FAST.A2_C50.mseed", "slow": "XX.SLOW.A2_C150.mseed", "mid": "XX.MID.mseed"}[name]
         obspy.Stream(traces).write(os.path.join(d, fn), format="MSEED")
         names.append(fn)
     return names
